@@ -157,6 +157,15 @@ def compare_instances(S, mi, mp, ri, rp):
 def mutate_text(rng, text, xml):
     """one or two structure-level faults: duplicated / deleted / swapped lines, renamed references, dropped tokens"""
     lines = text.split('\n')
+    if not xml and rng.random() < 0.25:
+        # an edge end that names something other than a location: a variable, a clock, a parameter, a template, a function
+        others = re.findall(r'\b(?:int|clock|bool|chan|process|void)\b(?:\s*\[[^\]]*\])?\s+(\w+)', text)
+        ks = [k for k, l in enumerate(lines) if re.search(r'\w+\s*->\s*\w+', l)]
+        if others and ks:
+            k = rng.choice(ks)
+            o = rng.choice(others)
+            lines[k] = re.sub(r'(\w+)(\s*->\s*)(\w+)', (lambda m: m.group(1) + m.group(2) + o) if rng.random() < 0.6 else (lambda m: o + m.group(2) + m.group(3)), lines[k], count=1)
+            return '\n'.join(lines)
     for _ in range(rng.choice([1, 1, 2])):
         k = rng.randrange(len(lines))
         r = rng.random()
